@@ -129,13 +129,14 @@ static void hub_child(const void *job, size_t n) {
 static void spelling_child(const void *job, size_t n) {
 	vs_dev_t devs[VS_MAXDEV]; int nd; size_t pl; const uint8_t *p = job_parse(job, n, devs, &nd, &pl);
 	c20_case_t c = { 2, 2, 1, 0x3F, (uint8_t) (p[0] & 7), 0, 0 };
-	static cm_model_t m; build(&m, &c); m.num_style = 1 + p[0] / 8;
+	static cm_model_t m; build(&m, &c); m.num_style = (1 + p[0] / 8) % 3; m.reverse_boards = p[0] >= 16;      /* cases 16..23: hexadecimal, boards listed in reverse order */
 	/* values that differ between decimal, octal and hexadecimal reading */
 	m.b[0].features[1] = (cm_feature_t) {0x65, 10}; m.b[1].features[0] = (cm_feature_t) {0x0C, 0x10}; m.b[1].features[1] = (cm_feature_t) {0x2C, 0x63};
 	hx_child_begin(NULL, 0, 0, NULL, 0, 120ull * 1000000ull);
 	cm_install(&m);
 	int rc = hx_start_normal(0); hx_quiesce();
-	char what[100]; snprintf(what, sizeof what, "start-up, byte values written in decimal%s", m.num_style == 2 ? " with leading zeros" : "");
+	char what[140]; snprintf(what, sizeof what, "start-up, byte values written in decimal%s", m.num_style == 2 ? " with leading zeros" : "");
+	if (m.reverse_boards) snprintf(what, sizeof what, "start-up, boards listed in reverse order in the configuration (presence mask %d)", c.presence);
 	if (rc) res_violation("start-failed", "%s: bidib_start_pointer returned %d", what, rc);
 	else { int reset_at = 0; for (int i = 0; i < SB.nlog; i++) if (SB.log[i].type == MSG_SYS_RESET) reset_at = i; check_segment(&m, reset_at, SB.nlog, what); }
 	hx_emit_ledger_violations("C20");
@@ -143,7 +144,7 @@ static void spelling_child(const void *job, size_t n) {
 	res_printf("O %llx %llx\n", (unsigned long long) h.a, (unsigned long long) h.b);
 	res_finish();
 }
-static size_t spelling_gen(long idx, uint8_t *payload, char *human, size_t hn) { payload[0] = (uint8_t) idx; snprintf(human, hn, "byte values in decimal%s, presence mask %ld", idx / 8 ? " with leading zeros" : "", idx % 8); return 1; }
+static size_t spelling_gen(long idx, uint8_t *payload, char *human, size_t hn) { payload[0] = (uint8_t) idx; if (idx >= 16) snprintf(human, hn, "boards listed in reverse order, presence mask %ld", idx % 8); else snprintf(human, hn, "byte values in decimal%s, presence mask %ld", idx / 8 ? " with leading zeros" : "", idx % 8); return 1; }
 static size_t hub_gen(long idx, uint8_t *payload, char *human, size_t hn) { payload[0] = (uint8_t) (idx % 12); payload[1] = (uint8_t) (idx / 12); snprintf(human, hn, "unconfigured-hub tree variant %d, feature/initial profile %d, presence mask %d", 1 + (int) (idx % 12) / 4, (int) (idx % 4), (int) (idx / 12)); return 2; }
 static int stride;
 static size_t c20_gen(long idx, uint8_t *payload, char *human, size_t hn) {
@@ -259,9 +260,9 @@ int c20_run(const char *tier) {
 	ex_spec_t sl = { .harness = "c20.slow", .ncases = 46, .gen = slow_gen, .label = "c20.slow" };
 	ex_map(&sl); e.done += sl.done; e.distinct_outcomes += sl.distinct_outcomes; if (!sl.exhaustive) e.exhaustive = 0;
 	rep_note("c20.slow: %ld start-ups with a slow or stalled board (5 feature counts x 4 delays x {late answers, stall}; track-output state confirmed late x 4 / never / as OFF), %ld delayed messages delivered", sl.done, rep_get("delayed_messages_delivered"));
-	ex_spec_t sp = { .harness = "c20.spelling", .ncases = 16, .gen = spelling_gen, .label = "c20.spelling" };
+	ex_spec_t sp = { .harness = "c20.spelling", .ncases = 24, .gen = spelling_gen, .label = "c20.spelling" };
 	ex_map(&sp); e.done += sp.done; e.distinct_outcomes += sp.distinct_outcomes; if (!sp.exhaustive) e.exhaustive = 0;
-	rep_note("c20.spelling: %ld start-ups with byte values written in decimal / decimal with leading zeros", sp.done);
+	rep_note("c20.spelling: %ld start-ups with byte values written in decimal / decimal with leading zeros / boards listed in reverse order", sp.done);
 	rep_note("c20.hub: %ld start-ups with configured boards beneath a hub the configuration does not mention", hb.done);
 	rep_note("c20.vanish: %ld cases (3 boards x GETNEXT #0..5 x {start-up, later reset}), table change applied in %ld", v.done, rep_get("table_changes_applied"));
 	rep_count("executions", e.done); rep_count("states", e.distinct_outcomes); rep_count("transitions", e.done * 2); rep_flag("exhaustive", e.exhaustive);
